@@ -222,7 +222,7 @@ def serial_outcomes(scripts):
         for ci in order:
             unit, tid, m = scripts[ci][0][pos[ci]]
             pos[ci] += 1
-            r = ref.handle(unit, m)[0]
+            r = ref.handle(unit, m if isinstance(m, dict) else scenario.as_msg(m))[0]
             replies[ci].append((tid, pdu.encode(r)))
         outs.append((tuple(tuple(r) for r in replies), scenario.ref_dumps(ref)[0]))
     return outs
@@ -346,7 +346,9 @@ class SchedDecoder(object):
 
     def decode(self, data):
         self.s.point('decode')
-        return self.inner.decode(data)
+        r = self.inner.decode(data)
+        self.s.point('decoded')          # ... and between handing the request back and its execution
+        return r
 
     def __getattr__(self, name):
         return getattr(self.inner, name)
@@ -373,6 +375,8 @@ THREAD_SCRIPTS = {
                    [dict(kind='req', fc=6, address=2, value=0x00B1)]],
     'multi-read': [[dict(kind='req', fc=16, address=2, count=2, byte_count=4, registers=[0xC1, 0xC2])],
                    [dict(kind='req', fc=3, address=2, count=2)]],
+    # two connections asking for functions the server does not implement: each is told so about ITS function
+    'illegal-illegal': [[b'\x41\x00'], [b'\x42\x00', dict(kind='req', fc=3, address=2, count=1)]],
 }
 
 
